@@ -17,6 +17,12 @@ def _snapshot(p):
                           p.propagator_nb))
 
 
+def _dummy_alg():
+    from framework import nucsmap as M
+
+    return M.ALG["dummy"]
+
+
 def check_split(p, k, var, model):
     """Post-condition of one split call. Returns (failures, parts)."""
     fails = []
@@ -44,6 +50,28 @@ def check_split(p, k, var, model):
     if not parts:
         fails.append(("no_part", "split returned no sub-problem"))
         return fails, parts
+    # independence: changing one problem (the way a user extends a model) must not change any other one
+    try:
+        again = p.split(k, var)
+        objs = [p] + list(again)
+        for i, q in enumerate(objs):
+            others = [(j, _snapshot(o)) for j, o in enumerate(objs) if j != i]
+            q.add_variable((0, 1), 0, 7) if i % 2 else q.add_variable((0, 1))
+            q.add_propagator(([0], _dummy_alg(), []))
+            for j, snap in others:
+                if _snapshot(objs[j]) != snap:
+                    fails.append(("problems_share_mutable_state",
+                                  "extending %s changed %s (add_variable / add_propagator on one object is visible in "
+                                  "the other)" % ("the original" if i == 0 else "sub-problem %d" % (i - 1),
+                                                  "the original" if j == 0 else "sub-problem %d" % (j - 1))))
+                    break
+            if fails and fails[-1][0] == "problems_share_mutable_state":
+                break
+        # p itself was extended by the test above: restore it
+        p.shr_domains_lst, p.dom_indices_lst, p.dom_offsets_lst, p.propagators, p.shr_domain_nb, p.propagator_nb = \
+            copy.deepcopy(before)
+    except Exception as e:
+        fails.append(("independence_test_raised:" + type(e).__name__, str(e)[:200]))
     srt = sorted(ranges)
     ok = all(lo <= hi for lo, hi in srt) and srt[0][0] == a and srt[-1][1] == b and all(
         srt[i][1] + 1 == srt[i + 1][0] for i in range(len(srt) - 1))
